@@ -186,6 +186,12 @@ func (thisListener *GruleV3ParserListener) ExitRuleEntry(ctx *grulev3.RuleEntryC
 
 		return
 	}
+	if entry.WhenScope == nil || entry.ThenScope == nil {
+		// the text ends (or goes wrong) before the rule has its when and then scope, there is no rule to add
+		thisListener.ErrorCallback.AddError(fmt.Errorf("rule entry %s has no when or no then scope", entry.RuleName))
+
+		return
+	}
 	err := entryReceiver.ReceiveRuleEntry(entry)
 	if err != nil {
 		thisListener.ErrorCallback.AddError(err)
